@@ -99,7 +99,7 @@ Theorem mesh_fftn_ok (m : mesh) (rfft : bool) : wf_mesh m ->
     dims (reg km) = map kdim (dims (reg m)) /\ units (reg km) = map kunit (units (reg m)) /\
     pmin (reg km) = map2 Qmin (map fst3 ax) (map snd3 ax) /\
     pmax (reg km) = map2 Qmax (map fst3 ax) (map snd3 ax) /\
-    Forall2 Qlt (map fst3 ax) (map snd3 ax) /\ length ax = length (n m).
+    Forall2 Qlt (map fst3 ax) (map snd3 ax) /\ length ax = length (n m) /\ tf (reg km) = tf (reg m).
 Proof.
   intros [[W1 [W2 [W3 [W4 [W5 [W6 W7]]]]]] [Wn Wp]] ax.
   assert (Hn1 : Forall (fun k => (1 <= k)%Z) (n m)) by (eapply Forall_impl; [|exact Wp]; simpl; intros; lia).
